@@ -86,6 +86,87 @@ theorem C16_ok_queue_wellformed (status : List Status) (g : Graph) (q : List (Op
     (h : saveOrder status g q = .ok ws) : QueueWellFormed status q :=
   fun x hx => ((saveOrder_ok h).2 x hx).1
 
+/-! ### deletions keep the order of the queue -/
+
+/-- DELETE statements are emitted in the order in which `Entity._delete_` queued the objects: a `marked_to_delete`
+    object is never written through the recursion (only created objects are), so if `x` is queued before the first
+    occurrence of `y`, `DELETE x` is executed strictly before `DELETE y` - for every graph and whatever else is queued
+    around and between them.  (The flush adds nothing to, and takes nothing from, the cascade order of `_delete_`.) -/
+theorem C16_deletes_in_queue_order (status : List Status) (g : Graph) (pre post : List (Option Nat)) (x y : Nat)
+    (ws : List Write) (hx : statusOf status x = .markedToDelete) (hy : statusOf status y = .markedToDelete)
+    (hxy : x ≠ y) (hpre : some y ∉ pre) (hpost : some y ∈ post)
+    (h : saveOrder status g (pre ++ some x :: post) = .ok ws) : Before (.delete x) (.delete y) ws := by
+  unfold saveOrder at h
+  have hq : pre ++ some x :: post = (pre ++ [some x]) ++ post := by simp
+  rw [hq, saveQueue_append] at h
+  cases hA : saveQueue g (fuelFor status) (pre ++ [some x]) { status := status, out := [] } with
+  | error e => simp [hA] at h
+  | ok s2 =>
+    simp only [hA] at h
+    cases hB : saveQueue g (fuelFor status) post s2 with
+    | error e => simp [hB] at h
+    | ok s =>
+      simp [hB] at h
+      subst h
+      obtain ⟨st2, hall2⟩ := saveQueue_spec g _ _ _ _ hA
+      obtain ⟨st3, hall3⟩ := saveQueue_spec g _ _ _ _ hB
+      obtain ⟨ws2, T2⟩ := st2.trace
+      obtain ⟨ws3, T3⟩ := st3.trace
+      obtain ⟨wsA, TA⟩ := (st2.trans st3).trace
+      have ho2 : s2.out = ws2 := by simpa using T2.out_eq
+      have hoA : s.out = wsA := by simpa using TA.out_eq
+      -- y is still to be deleted after the first part
+      have hy2 : statusOf s2.status y = .markedToDelete :=
+        saveQueue_keepsDeletes g _ _ _ _ hA y hy (by
+          intro hm; rcases List.mem_append.mp hm with hm | hm
+          · exact hpre hm
+          · simp at hm; exact hxy hm.symm)
+      -- DELETE x has been executed by then
+      have hdx : Write.delete x ∈ s2.out := by
+        have hw := hall2 x (by simp)
+        rw [written_iff] at hw
+        obtain ⟨w, hw, hwx⟩ := hw
+        obtain ⟨z, hz, _, _⟩ := T2.writes w (ho2 ▸ hw)
+        simp only at hz
+        have : z = x := by rw [hz, stmtOf_obj] at hwx; simpa using hwx
+        subst this
+        rw [hx] at hz
+        have hz' : w = Write.delete z := hz
+        rw [← hz']; exact hw
+      -- DELETE y has not
+      have hdy2 : Write.delete y ∉ s2.out := by
+        intro hm
+        obtain ⟨z, hz, hpz, hsz⟩ := T2.writes _ (ho2 ▸ hm)
+        simp only at hz hpz hsz
+        have : z = y := by
+          have := congrArg Write.obj? hz
+          rw [stmtOf_obj] at this; simpa [Write.obj?] using this.symm
+        subst this
+        rw [hy] at hsz
+        rw [hsz] at hy2; simp [savedOf] at hy2
+      -- and it is executed in the second part
+      have hdy : Write.delete y ∈ s.out := by
+        have hw := hall3 y hpost
+        rw [written_iff] at hw
+        obtain ⟨w, hw, hwy⟩ := hw
+        obtain ⟨z, hz, _, _⟩ := TA.writes w (hoA ▸ hw)
+        simp only at hz
+        have : z = y := by rw [hz, stmtOf_obj] at hwy; simpa using hwy
+        subst this
+        rw [hy] at hz
+        have hz' : w = Write.delete z := hz
+        rw [← hz']; exact hw
+      rw [T3.out_eq] at hdy ⊢
+      rcases List.mem_append.mp hdy with hm | hm
+      · exact absurd hm hdy2
+      · obtain ⟨l1, l2, e1⟩ := List.append_of_mem hdx
+        obtain ⟨m1, m2, e2⟩ := List.append_of_mem hm
+        exact ⟨l1, l2 ++ m1, m2, by rw [e1, e2]; simp⟩
+
+/-- parent 0 with two cascade children 1, 2 queued first by `_delete_`, an unrelated new object in between -/
+example : saveOrder [.markedToDelete, .markedToDelete, .markedToDelete, .created] [[], [⟨0, false⟩], [⟨0, false⟩], []]
+    [some 1, some 3, some 2, some 0] = .ok [.delete 1, .insert 3, .delete 2, .delete 0] := by rfl
+
 /-! ### termination and the possible errors -/
 
 private theorem saveOrder_err {status : List Status} {g : Graph} {q : List (Option Nat)} {e : Err}
@@ -330,6 +411,116 @@ example : PosInv { queue := [some 3, none, some 0, some 1, some 2], pos := [some
     | 0 | 2 | 3 | 4 => simp [Holds] at h; subst h; rfl
     | 1 => simp [Holds] at h
     | j + 5 => simp [Holds] at h
+
+/-! ### second clause: a failing flush commits nothing; a successful one commits everything at once -/
+
+private theorem execAll_immediate : ∀ (ws : List Write) (c : Conn), c.immediate = true →
+    (execAll c ws).committed = c.committed ∧ (execAll c ws).pending = c.pending ++ ws
+      ∧ (execAll c ws).immediate = true ∧ (execAll c ws).inTxn = (c.inTxn || !ws.isEmpty) := by
+  intro ws
+  induction ws with
+  | nil => intro c h; simp [execAll, h]
+  | cons w ws ih =>
+    intro c h
+    have hs : execStmt c w = { c with immediate := true, inTxn := true, pending := c.pending ++ [w] } := by
+      simp [execStmt, h]
+    have := ih (execStmt c w) (by rw [hs])
+    simp only [execAll, List.foldl_cons] at this ⊢
+    rw [hs] at this ⊢
+    simpa using this
+
+/-- No statement of a flush is executed outside a transaction: whatever the connection state (transaction open or
+    not, `immediate` set or not) and whatever statements the flush sends - link-table statements first included - the
+    durable state does not change before a commit. -/
+theorem C16_flush_statements_in_transaction (c : Conn) (ws : List Write) :
+    (flushConn true c ws).committed = c.committed ∧ (flushConn true c ws).pending = c.pending ++ ws := by
+  have h := execAll_immediate ws { c with immediate := c.immediate || true } (by simp)
+  simp only at h
+  unfold flushConn
+  simp only
+  generalize execAll { c with immediate := c.immediate || true } ws = c1 at h
+  by_cases hi : c1.inTxn = true <;> simp [hi, h.1, h.2.1]
+
+/-- "When the references form a cycle that cannot be ordered, flush raises an error and the session's writes are not
+    committed": for every connection state, every session and every list of statements executed before the raise,
+    `flush_and_commit` with a failing flush re-raises the error and leaves the database exactly as it was; nothing stays
+    pending. (With `C16_cycle_iff`: this is what happens exactly when the created objects contain a cycle.) -/
+theorem C16_failed_flush_commits_nothing (c : Conn) (ss : Session) (executed : List Write) (e : Err)
+    (h : flush ss = .error e) :
+    (flushAndCommit c ss executed).2 = .error e
+    ∧ (flushAndCommit c ss executed).1.committed = c.committed
+    ∧ (flushAndCommit c ss executed).1.pending = []
+    ∧ (flushAndCommit c ss executed).1.inTxn = false := by
+  have hk := (C16_flush_statements_in_transaction c executed).1
+  refine ⟨?_, ?_, ?_, ?_⟩ <;> simp [flushAndCommit, h, rollbackConn, hk]
+
+/-- a successful flush + commit makes the earlier uncommitted statements of the session and the whole statement list of
+    the flush durable together (`c.inTxn = false → c.pending = []` is the only assumption: nothing is pending without a
+    transaction) -/
+theorem C16_commit_applies_flush_atomically (c : Conn) (ss : Session) (executed ws : List Write)
+    (hc : c.inTxn = false → c.pending = []) (h : flush ss = .ok ws) :
+    (flushAndCommit c ss executed).2 = .ok ()
+    ∧ (flushAndCommit c ss executed).1.committed = c.committed ++ c.pending ++ ws
+    ∧ (flushAndCommit c ss executed).1.inTxn = false := by
+  have hx := execAll_immediate ws { c with immediate := c.immediate || true } (by simp)
+  simp only at hx
+  have goal : (commitConn (flushConn true c ws)).committed = c.committed ++ c.pending ++ ws := by
+    unfold commitConn flushConn
+    simp only
+    generalize execAll { c with immediate := c.immediate || true } ws = c1 at hx
+    obtain ⟨h1, h2, _, h4⟩ := hx
+    by_cases hi : c1.inTxn = true
+    · simp [hi, h1, h2, List.append_assoc]
+    · have hi' : c1.inTxn = false := by simpa using hi
+      rw [hi'] at h4
+      have h5 : c.inTxn = false ∧ ws.isEmpty = true := by
+        cases hc' : c.inTxn <;> cases hw : ws.isEmpty <;> simp [hc', hw] at h4 ⊢
+      have hws : ws = [] := by simpa using h5.2
+      simp [hi', h1, hc h5.1, hws]
+  refine ⟨?_, ?_, ?_⟩
+  · simp [flushAndCommit, h]
+  · simp only [flushAndCommit, h]; exact goal
+  · simp [flushAndCommit, h, commitConn]
+
+/-- the line `cache.immediate = True` of `SessionCache.flush` is what the clause rests on: without it, in an optimistic
+    session with no transaction open, a flush that starts with a link-table statement (which passes no
+    `start_transaction`) makes that statement durable although the flush then fails and the session is rolled back -/
+theorem C16_immediate_line_needed :
+    ∃ (c : Conn) (ws : List Write), (rollbackConn (flushConn false c ws)).committed ≠ c.committed :=
+  ⟨{ inTxn := false, immediate := false, committed := [], pending := [] }, [.unlink 1 2, .insert 3], by decide⟩
+
+/-- the `start_transaction` argument of the writer that emits a statement, according to the source -/
+def sourceStartFlag (w : Write) : Option Bool :=
+  let writer := match w with
+    | .insert _ => "_save_created_" | .update _ => "_save_updated_" | .delete _ => "_save_deleted_"
+    | .unlink _ _ => "remove_m2m" | .link _ _ => "add_m2m"
+  match PonyVerif.Gen.FlushShape.startTransactionArgs.lookup writer with
+  | some "True" => some true
+  | some "absent" => some false
+  | _ => none
+
+/-- The transaction skeleton extracted from the current source is the one `execStmt` / `flushConn` / `commitConn` /
+    `flushAndCommit` mirror: `flush` saves and sets `cache.immediate` before anything else and restores it only when no
+    transaction was opened; `_exec_sql` raises the flag for `start_transaction`, prepares the connection (BEGIN when
+    `immediate and not in_transaction`), executes, records `in_transaction`; every writer passes the flag `startFlag` says;
+    `flush_and_commit` is try-flush / except-rollback-raise / commit; commit commits an open transaction and sets
+    `immediate`; SQLite's `set_transaction_mode` begins a transaction exactly under `cache.immediate`. -/
+theorem C16_bridge_transaction_shape :
+    PonyVerif.Gen.FlushShape.flushBeforeTry = ["if cache.noflush_counter: ;     return", "prev_immediate = cache.immediate", "cache.immediate = True"]
+    ∧ PonyVerif.Gen.FlushShape.flushFinally = ["if not cache.in_transaction: ;     cache.immediate = prev_immediate"]
+    ∧ (∀ w : Write, sourceStartFlag w = some (startFlag w))
+    ∧ PonyVerif.Gen.FlushShape.execSqlFlagLines = ["if start_transaction: ;     cache.immediate = True", "if cache.immediate: ;     cache.in_transaction = True"]
+    ∧ PonyVerif.Gen.FlushShape.execSqlOrder = ["flag", "prepare", "execute", "in_transaction"]
+    ∧ PonyVerif.Gen.FlushShape.prepareBeginTests = ["cache.immediate and (not cache.in_transaction)"]
+    ∧ PonyVerif.Gen.FlushShape.flushAndCommit =
+        ["try: ;     cache.flush() ; except: ;     cache.rollback() ;     raise",
+         "try: ;     cache.commit() ; except: ;     transact_reraise(CommitException, [sys.exc_info()])"]
+    ∧ PonyVerif.Gen.FlushShape.commitSteps =
+        ["if cache.in_transaction: ;     assert cache.connection is not None ;     cache.database.provider.commit(cache.connection, cache)",
+         "cache.immediate = True"]
+    ∧ PonyVerif.Gen.FlushShape.sqliteBegin = ["cache.immediate", "sql = 'BEGIN IMMEDIATE TRANSACTION'", "cache.in_transaction = True"] := by
+  refine ⟨rfl, rfl, ?_, rfl, rfl, rfl, rfl, rfl, rfl⟩
+  intro w; cases w <;> rfl
 
 /-! ### the emitted order is accepted by a backend that enforces foreign keys immediately -/
 
